@@ -45,7 +45,7 @@ func Record(seed int64, n int, out string) (int, error) {
 		for d := r.Intn(6); d > 0; d-- {
 			kinds = append(kinds, []string{"func", "forin"}[r.Intn(2)])
 		}
-		shape := Shape{kinds, "none", r.Intn(6)}.Canon()
+		shape := Shape{kinds, "none", r.Intn(6)}.Canon(false)
 		emit(map[string]any{"ev": "reset"})
 		mode := r.Intn(10)
 		switch {
